@@ -97,6 +97,9 @@ def run_property(prop, tier, root, quiet=False, overrides=None):
     from .rules import tolerance
 
     tolerance.census(eng, R, prop)
+    from .rules import latebind
+
+    latebind.census(eng, R, prop)
     st = eng.eff.stats
     R.info["call sites seen by effect summaries"] = "%d (resolved %d, opaque %d)" % (st["calls"], st["resolved"], st["opaque"])
     return R, explanation
